@@ -20,8 +20,8 @@
 (* condition for "farther than").                                                             *)
 EXTENDS PathOps, TLC, Json, IOUtils
 
-VARIABLES l, fam, hist
-vars == <<l, fam, hist>>
+VARIABLES l, fam, cur, hist, stat
+vars == <<l, fam, cur, hist, stat>>
 
 Tr == ndJsonDeserialize(IOEnv.TRACE)
 Ev == Tr[l]
@@ -79,11 +79,15 @@ TFam ==
                  outer |-> [i \in 1..Len(pts) |-> OutX(r, pts[i]) >= 2 \/ OutY(r, pts[i]) >= 2],
                  ok |-> r[1] < r[3] /\ r[2] < r[4] /\ (\A c \in 1..4 : Abs(r[c]) <= 2048) /\ (\A j \in 1..Len(pts) : SmallPt(pts[j])) ]
   /\ hist' = <<>>
+  /\ UNCHANGED <<cur, stat>>
   /\ Chk(fam'.ok, "HARNESS", "bad_family", 0)
 
 (* ------------------------------------------------------------------ measurements recomputed from the raw result (exact embeddings) *)
 VmOf(r, inputs, Q) == [k \in 1..Len(Q) |-> [i \in 1..Len(Q[k]) |->
                          LET q == Q[k][i] IN << IF q \in inputs THEN 1 ELSE 0, Sat(OutX(r, q)), Sat(OutY(r, q)), Sat(DIn(r, q)) >>]]
+(* |2 area| over (2 x L1 perimeter + 2 x vertices), saturated: moving every vertex by at most one unit per axis changes 2 area by less than the divisor *)
+L1Perim(P) == SumF([i \in 1..Len(P) |-> Abs(Nxt(P, i)[1] - P[i][1]) + Abs(Nxt(P, i)[2] - P[i][2])], Len(P))
+AreaQuot(P) == IF Len(P) = 0 THEN 0 ELSE Sat(Abs(Area2(P)) \div (2 * L1Perim(P) + 2 * Len(P)))
 XIdx(id, n) == {i \in 1..n : i % 5 = id % 5}                \* sample points re-measured by TLC (rotates with the case id)
 CoverOK(Q, cover, id) == LET E == AllEdges(Q) IN
   \A i \in XIdx(id, Len(fam.pts)) : IF OnAny(E, fam.pts[i]) THEN cover[i] = 99 ELSE cover[i] = Wind(E, fam.pts[i])
@@ -93,6 +97,7 @@ RawOK(ev, inputs, id, isCase) ==
      /\ VmOf(fam.rect, inputs, Q) = ev.vm
      /\ CoverOK(Q, ev.cover, id)
      /\ isCase => /\ ev.asg = [k \in 1..Len(Q) |-> Sgn(Area2(Q[k]))]
+                  /\ ev.aq = [k \in 1..Len(Q) |-> AreaQuot(Q[k])]
                   /\ (ev.same = 1) = (Q = <<ev.P>>)
 
 (* ------------------------------------------------------------------ clauses on the result's vertices *)
@@ -107,11 +112,24 @@ OuterClause(cover, tag) ==
   IN Chk(bad = {}, "C08", "covers_outside", IF bad = {} THEN tag ELSE fam.pts[CHOOSE i \in bad : TRUE])
 
 (* ------------------------------------------------------------------ Case *)
+(* Geom!FarSeg with the edge length bound passed in (computed once per edge, not once per point) *)
+FarSegL(p, a, b, t, len2, L) ==
+  LET d1 == Dot(a, b, p)
+  IN IF d1 <= 0 THEN Dist2(p, a) > t * t
+     ELSE IF d1 >= len2 THEN Dist2(p, b) > t * t
+     ELSE Abs(Cross(a, b, p)) > t * L
+B(c) == IF c THEN 1 ELSE 0
 Analyse(P) ==
-  LET E == PEdges(P)  pts == fam.pts
-  IN [ P |-> P, simple |-> Simple(P), along |-> AlongSide(fam.rect, P),
+  LET E == PEdges(P)  pts == fam.pts  t == fam.tol
+      len2 == [j \in 1..Len(E) |-> Dist2(E[j][1], E[j][2])]
+      L == [j \in 1..Len(E) |-> ISqrtHi(len2[j])]
+      simple == Simple(P)  along == AlongSide(fam.rect, P)
+      clr == [i \in 1..Len(pts) |-> fam.inner[i] /\ \A j \in 1..Len(E) : FarSegL(pts[i], E[j][1], E[j][2], t, len2[j], L[j])]
+  IN [ P |-> P, simple |-> simple, along |-> along,
+       inside |-> AllInside(fam.rect, P), outside |-> EntirelyOutside(fam.rect, P), sgn |-> Sgn(Area2(P)),
        w |-> [i \in 1..Len(pts) |-> IF fam.inner[i] THEN Wind(E, pts[i]) ELSE 0],
-       clr |-> [i \in 1..Len(pts) |-> fam.inner[i] /\ ClearOf(E, pts[i], fam.tol)] ]
+       clr |-> clr,
+       njudged |-> IF simple \/ ~along THEN Cardinality({i \in 1..Len(pts) : clr[i]}) ELSE 0 ]
 
 (* winding clause at the clear interior sample points: exact for simple polygons, parity otherwise *)
 (* (unless an edge lies along a side, where the property promises nothing for non-simple input)    *)
@@ -120,33 +138,37 @@ WindBad(simple, along, w, clr, cover) ==
        IF simple THEN cover[i] # w[i] ELSE (~along /\ (cover[i] - w[i]) % 2 # 0)}
 
 CasePost(ev, a) ==
-  LET P == ev.P  r == fam.rect
-      bad == WindBad(a.simple, a.along, a.w, a.clr, ev.cover)
-      sP == Sgn(Area2(P))
+  LET bad == WindBad(a.simple, a.along, a.w, a.clr, ev.cover)
   IN /\ VertexClauses(ev.vm, ev.id)
      /\ OuterClause(ev.cover, ev.id)
      /\ Chk(bad = {}, "C08", IF a.simple THEN "winding_simple" ELSE "winding_parity", IF bad = {} THEN ev.id ELSE fam.pts[CHOOSE i \in bad : TRUE])
-     /\ (AllInside(r, P) => Chk(ev.same = 1, "C08", "inside_path_changed", ev.id))
-     /\ (EntirelyOutside(r, P) => Chk(ev.n = 0, "C08", "outside_path_not_dropped", ev.id))
-     /\ (a.simple => Chk(\A k \in 1..Len(ev.asg) : ev.asg[k] * sP >= 0, "C08", "orientation", ev.id))
+     /\ (a.inside => Chk(ev.same = 1, "C08", "inside_path_changed", ev.id))
+     /\ (a.outside => Chk(ev.n = 0, "C08", "outside_path_not_dropped", ev.id))
+     \* orientation: judged for result paths whose area is at least twice what one-unit rounding of their vertices could change
+     /\ (a.simple => Chk(\A k \in 1..Len(ev.asg) : ev.aq[k] < 2 \/ ev.asg[k] = a.sgn, "C08", "orientation", ev.id))
 
+(* a raw result with a vertex far outside the family's range (the harness clamps such coordinates) is judged by the measurements only *)
+RawSmall(Q) == \A k \in 1..Len(Q) : \A i \in 1..Len(Q[k]) : SmallPt(Q[k][i])
 PathOK(P) == Len(P) >= 1 /\ \A i \in 1..Len(P) : SmallPt(P[i])
 
 TCase ==
   /\ Ev.e = "Case"
   /\ UNCHANGED fam
-  /\ IF ~PathOK(Ev.P) THEN hist' = <<>> /\ Note("DROP", Ev.id)
-     ELSE LET a == Analyse(Ev.P)
-              inputs == {Ev.P[i] : i \in 1..Len(Ev.P)}
-          IN /\ hist' = IF Ev.b = 1 THEN Append(hist, a) ELSE <<>>
-             /\ (fam.exact => Chk(RawOK(Ev, inputs, Ev.id, TRUE), "HARNESS", "measurement_crosscheck", Ev.id))
-             /\ CasePost(Ev, a)
+  /\ IF ~PathOK(Ev.P) THEN hist' = <<>> /\ UNCHANGED <<cur, stat>> /\ Note("DROP", Ev.id)
+     ELSE /\ cur' = Analyse(Ev.P)            \* evaluated once; every clause below reads cur'
+          /\ hist' = IF Ev.b = 1 THEN Append(hist, cur') ELSE <<>>
+          \* measured census of what was judged: cases, simple, edge-along-a-side, all inside, entirely outside, judged points, batches
+          /\ stat' = << stat[1] + 1, stat[2] + B(cur'.simple), stat[3] + B(cur'.along), stat[4] + B(cur'.inside),
+                        stat[5] + B(cur'.outside), stat[6] + cur'.njudged, stat[7] >>
+          /\ ((fam.exact /\ RawSmall(Ev.raw)) => Chk(RawOK(Ev, {Ev.P[i] : i \in 1..Len(Ev.P)}, Ev.id, TRUE), "HARNESS", "measurement_crosscheck", Ev.id))
+          /\ CasePost(Ev, cur')
 
 (* ------------------------------------------------------------------ Batch: the k preceding paths in one call *)
 TBatch ==
   /\ Ev.e = "Batch"
-  /\ UNCHANGED fam
+  /\ UNCHANGED <<fam, cur>>
   /\ hist' = <<>>
+  /\ stat' = [stat EXCEPT ![7] = @ + 1]
   /\ Chk(Ev.k = Len(hist), "HARNESS", "batch_size", Ev.k)
   /\ Ev.k = Len(hist) =>
        LET K == Len(hist)
@@ -157,15 +179,16 @@ TBatch ==
            w == [i \in 1..n |-> SumF([j \in 1..K |-> hist[j].w[i]], K)]
            clr == [i \in 1..n |-> \A j \in 1..K : hist[j].clr[i]]
            bad == WindBad(allSimple, anyAlong, w, clr, Ev.cover)
-       IN /\ (fam.exact => Chk(RawOK(Ev, inputs, l, FALSE), "HARNESS", "measurement_crosscheck", l))
+       IN /\ ((fam.exact /\ RawSmall(Ev.raw)) => Chk(RawOK(Ev, inputs, l, FALSE), "HARNESS", "measurement_crosscheck", l))
           /\ VertexClauses(Ev.vm, l)
           /\ OuterClause(Ev.cover, l)
           /\ Chk(bad = {}, "C08", "batch_winding", IF bad = {} THEN l ELSE fam.pts[CHOOSE i \in bad : TRUE])
           /\ (IF Ev.eqcat = 1 THEN TRUE ELSE Note("EQCAT0", l))
 
-Init == l = 1 /\ fam = <<>> /\ hist = <<>>
+Init == l = 1 /\ fam = <<>> /\ cur = <<>> /\ hist = <<>> /\ stat = <<0, 0, 0, 0, 0, 0, 0>>
 Next == /\ l <= Len(Tr)
         /\ l' = l + 1
         /\ (TFam \/ TCase \/ TBatch)
+        /\ (l = Len(Tr) => Note("STATS", stat'))
 Spec == Init /\ [][Next]_vars
 =============================================================================
